@@ -99,6 +99,17 @@ CLAIMS = {
                   "harness (byte comparison), the model has no such write. For endings without '\\n' the byte-level statement is the claim.",
              tech="Coq proof: list-operation refinement, join/split round-trip; differential correspondence on real files",
              ref="DESIGN.md §4 C12"),
+ "C13": dict(text="CSV/TSV: Coq model of CPython's csv writer (QUOTE_MINIMAL) and reader state machine for an arbitrary delimiter; "
+             "theorems for ALL field strings: read(write(row)) = row (also in the stored line form), single line for fields without "
+             "line breaks, and the class-level shared buffer returns exactly each call's own row for any interleaving of record classes. "
+             "Record files: the C11/C12 theorems (item i = load(line i); edit-save-reopen keeps the lines). JSON: PARTIAL - "
+             "json.dumps/loads round-trip is a hypothesis of the abstract-codec theorem, exercised by the correspondence only. "
+             "Tied to /repo by exact comparison of saved strings / parsed fields with the model over dynamically created record "
+             "classes, hostile JSON values, and record files on disk.",
+             note="Assumed: json and float repr round-trip, int(str(i)) == i; the csv module as modelled (the writer model is compared "
+                  "byte for byte with the real csv output on every run).",
+             tech="Coq proof: reader/writer state-machine round trip by induction over fields, buffer invariant; differential correspondence",
+             ref="DESIGN.md §4 C13"),
 }
 ALL = ["C%02d" % i for i in range(1, 21)]
 def chk(pid, c):
